@@ -1,5 +1,6 @@
 """C04 - Rabin(1) region exact; dual to the opponent's Streett(1) region."""
 from vlib import families as fam
+from vlib.runner import stable_hash
 
 ID = 'C04'
 LEVEL = 'exploration'
@@ -134,12 +135,15 @@ def run_dual(c, case, acc):
     # makes the set exactly the Streett region with no recurrence goal left
     # (the component wins by persistence or by the environment's action
     # alone).
+    exact = not c['moore'] and not c['plus_one']
+    if not exact and int(stable_hash(c)[:4], 16) % 4:
+        return      # the subset reading: a quarter of the other modes
     triv, _ = gr1.trivial_winning_set(aut)
     tt = gm.state_table(triv)
     if not tt <= ref:
         acc.violation('trivial_set_contains_losing_state', case, detail=dict(
             vars=gm.svars, states=sorted(tt - ref)[:6]))
-    elif not c['moore'] and not c['plus_one']:
+    elif exact:
         exp = gm.winning(P, [set()], rabin=False)
         if tt != exp:
             acc.violation('trivial_set_differs_from_dual', case, detail=dict(
